@@ -56,6 +56,8 @@ def sparql(u, direction, placement, pred):
         pattern += f" FILTER(isIRI(?{free}))"
     if where == "inside":
         return f"{select} WHERE {{ {values} {pattern} }}"
+    if where == "insideafter":   # inside the group, but written after the triple pattern
+        return f"{select} WHERE {{ {pattern} . {values} }}"
     return f"{select} WHERE {{ {pattern} }} {values}"
 
 
@@ -104,6 +106,12 @@ def ask(ci, transport, query, free):
         r = flask_client.get("/sparql", query_string={"query": query}, headers={"accept": "application/json"})
     elif transport == "flask-post":
         r = flask_client.post("/sparql", data={"query": query}, headers={"accept": "application/json"})
+    elif transport == "flask-post-charset":   # the form content type may carry a charset parameter
+        from urllib.parse import urlencode
+
+        r = flask_client.post("/sparql", data=urlencode({"query": query}), headers={"accept": "application/json", "Content-Type": "application/x-www-form-urlencoded; charset=UTF-8"})
+    elif transport == "flask-post-multipart":
+        r = flask_client.post("/sparql", data={"query": query}, headers={"accept": "application/json"}, content_type="multipart/form-data")
     elif transport == "fastapi-get":
         if fast_client is None:
             return None, 0
@@ -114,7 +122,7 @@ def ask(ci, transport, query, free):
     return bindings_from_json(text, free)
 
 
-TRANSPORTS = ["graph", "flask-get", "flask-post", "fastapi-get"]
+TRANSPORTS = ["graph", "flask-get", "flask-post", "flask-post-charset", "flask-post-multipart", "fastapi-get"]
 
 
 def check_query(ci, u, direction, placement, pred, model=None, ctx=None):
@@ -333,7 +341,7 @@ def run_unit(unit, ctx):
         ctx.state(hash(("svc", ci)))
         for u in unit["uris"]:
             for direction in ("s", "o"):
-                for placement in ("inside", "after", "inside+filter", "after+filter", "after+distinct"):
+                for placement in ("inside", "after", "insideafter", "inside+filter", "after+filter", "after+distinct"):
                     for pred in (OWL_SAMEAS, OTHER_PRED):
                         fails = check_query(ci, u, direction, placement, pred, ctx=ctx)
                         case = {"kind": "sparql", "conv": ci, "uri": u, "direction": direction, "placement": placement, "pred": pred}
@@ -430,7 +438,7 @@ def describe(tier):
         "level": "model_checking",
         "rule": "(a) 6 converters (empty CURIE prefix, non-ASCII IRIs, nested URI prefixes, URI synonyms nested inside other records' prefixes, CURIE synonyms) x every URI prefix "
         "followed by '1', '', 'x/y', two percent-encoded identifiers, and shortened by one character + 2 unrecognised URIs x ?s/?o bound x VALUES inside/after WHERE (plain, with a FILTER, with DISTINCT) x "
-        "{owl:sameAs, other predicate} x {graph, Flask GET, Flask POST, FastAPI GET}; then twice: query, add a URI synonym to the live "
+        "{owl:sameAs, other predicate} x {graph, Flask GET, Flask POST (plain, with charset parameter, multipart), FastAPI GET}; then twice: query, add a URI synonym to the live "
         "converter, query again; graphs configured with 6 explicit predicate sets x 3 queried predicates; (b) all Accept headers of 1..3 distinct media types from 3 supported + 5 synonyms + text/html + */* x q in "
         "{absent,0.1,0.5,0.9} x 8 optional-whitespace placements; 1/3 of the 2-element headers also through both web frameworks; "
         "distinct_nontrivial = queries with >= 2 equivalent renderings + headers whose winner is a supported type chosen by q",
